@@ -513,8 +513,8 @@ MUST_REACH = ["send:accepted", "send:EMSGSIZE", "send:window-full",
               "recv:message", "recv:nothing", "wire:I", "wire:RR", "wire:RNR",
               "wire:ack", "drained", "closed", "llc-pair-established", "acks:yes"]
 BOUNDS = {
-    "quick": "DataLinkConnection pair: RW of both ends symbolic 0..15, initial sequence variables of both directions symbolic 0..15, connection MIU of both ends symbolic 128..2175; histories of up to 4 operations (2 fixed from 9 x 9, 2 picked) out of {send 1 octet / 129 octets on A, send on B, recv on A/B, link exchange A->B / B->A, toggle receiver busy on B, close on A}, and 4 warm-up operations + up to 4 from the 6 core operations; then link exchanges and reads until quiescent.  LogicalLinkController pair: real listen/connect/accept handshake over collect()/dispatch(), link MIU symbolic 128..2175, aggregation on/off, histories of up to 3 core operations",
-    "thorough": "as quick with histories of up to 5 operations from 14 (adds blocking send, poll('acks'), busy on A, close on B), up to 6 from the 6 core operations (also after two warm-up prefixes), and LLC pair histories of up to 4 operations",
+    "quick": "DataLinkConnection pair: RW of both ends symbolic 0..15, initial sequence variables of both directions symbolic 0..15, connection MIU of both ends symbolic 128..2175; histories of up to 4 operations from the 6 core ones {send on A/B, recv on A/B, link exchange A->B / B->A}, up to 3 from 9 (adds 129-octet send, receiver-busy toggle on B, close on A), up to 3 core operations after a 4-operation warm-up, up to 3 from {xfer, poll('acks'), send, recv} after a 3-operation warm-up; afterwards link exchanges and reads until quiescent.  LogicalLinkController pair: real listen/connect/accept handshake over collect()/dispatch(), link MIU symbolic 128..2175, aggregation on/off, up to 3 core operations",
+    "thorough": "as quick with up to 5 core operations (also after two warm-up prefixes), up to 6 of the one-direction operations {send A, xfer A, xfer B, recv B}, 2 fixed from 14 (adds blocking send, poll('acks'), busy on A, close on B, 129-octet send on B) + 2 from 9, up to 5 of the acknowledgement-counter operations, LLC pair histories of up to 4 operations",
 }
 OUTSIDE = ["real thread schedules of blocking application calls against the two link run loops (the blocking half of the property's quantifier): a call that reaches Condition.wait() is an event here, not a sleeping thread",
            "histories longer than the bound (sequence wrap-around is covered by the symbolic initial sequence variables, not by length)",
